@@ -28,6 +28,8 @@ theorem json_strict_rt (j : J) : fromArrai true (toArrai true j) = .ok j.norm :=
 theorem json_strict_rt_same (j : J) (h : j.hasDupKeys = false) : fromArrai true (toArrai true j) = .ok j := by
   rw [rt_strict j, norm_eq_self j h]
 
+example : (J.obj [([97], .num 1), ([98], .obj [([97], .null)])]).hasDupKeys = false := by decide
+
 /-- decode ∘ encode ∘ decode = decode, strict mode, all documents -/
 theorem json_idem_strict (j : J) : reDecode true j = .ok (toArrai true j) := by
   simp [reDecode, rt_strict, toArrai_norm]
@@ -129,6 +131,8 @@ theorem bits_set_mask (S : List Nat) (hs : S.Pairwise (· < ·)) (hb : ∀ x ∈
   have h1 : Bits.mask S < 2 ^ 53 := Bits.mask_lt hs hb
   have : Bits.mask S < 2 ^ 63 := Nat.lt_of_lt_of_le h1 (Nat.pow_le_pow_right (by omega) (by omega))
   simp [Bits.set, this, Bits.setLoop_mask S hs]
+
+example : [0, 2, 52].Pairwise (· < ·) ∧ (∀ x ∈ [0, 2, 52], x < 53) ∧ 5 < 2 ^ 53 := by decide
 
 /-- an integer the `int` conversion cannot hold is rejected (used to panic for non-integers) -/
 theorem bits_set_rejects_large (n : Nat) (h : 2 ^ 63 ≤ n) : Bits.set n = .err := by
